@@ -140,7 +140,7 @@ def _container_with(role, kind, leaf_t, label, tagmode, default=None):
         if role == 'alt_ext':
             return Type('CHOICE', root=[Member('f', tg(0, f1)), Member('m', tg(1, mt))], ext=True)
         if role == 'ext_alt':
-            return Type('CHOICE', root=[Member('f', tg(0, f1))], ext=True, adds=[Member('g', tg(2, f2)), Member('m', tg(1, mt))])
+            return Type('CHOICE', root=[Member('f', tg(0, f1))], ext=True, adds=[Member('g', tg(1, f2)), Member('m', tg(2, mt))])
     if kind in ('SEQUENCE OF', 'SET OF'):
         if role == 'elem':
             return Type(kind, elem=mt)
